@@ -1039,6 +1039,34 @@ def r_gravsoft_angular(cx):
               "normalize_gravsoft_grid_values takes a boundary with |h| %s %s for a projected coordinate: a grid in degrees that "
               "reaches %s (longitudes 0..360, say) is not converted to radians, and its corrections are used as if in "
               "metres" % (">" if op in ("Gt", "Le") else ">=", T, "beyond %s" % T if T < 360 else "360"), cx.where(sw["span"]))
+    # the same test written as `header.iter().take(4).any(|h| h.abs() > T)`
+    import elems as E
+    for cname in sorted(cx.f.lib["fns"]):
+        if not cname.startswith(name + "::{closure"):
+            continue
+        g = cx.f.fn(cname)
+        rt = E.return_term(g)
+        c = mir.strip_refs(rt) if rt is not None else None
+        if not (c is not None and c[0] == "bin" and c[1] in ("Gt", "Ge", "Lt", "Le")):
+            continue
+        l, r = mir.strip_refs(c[2]), mir.strip_refs(c[3])
+        op = c[1]
+        if l[0] == "const" and r[0] != "const":
+            l, r = r, l
+            op = {"Gt": "Lt", "Ge": "Le", "Lt": "Gt", "Le": "Ge"}[op]
+        if not (l[0] == "call" and isinstance(l[1], str) and l[1].endswith("::abs") and r[0] == "const" and
+                isinstance(r[2], tuple) and r[2][0] == "float" and op in ("Gt", "Ge")):
+            continue
+        used_by_any = any((f.callee(t) or "").rsplit("::", 1)[-1] == "any" and cname in str(f.arg_terms(bb)) for bb, t in f.calls())
+        if not used_by_any:
+            continue
+        T = float(r[2][1])
+        n += 1
+        ok = (op == "Gt" and T >= 360.0) or (op == "Ge" and T > 360.0)
+        cx.ob("R-GRAVSOFT-ANGULAR", "threshold%d" % (n - 1), ok,
+              "boundaries up to a full circle (|h| <= 360) count as angles (threshold %s)" % T if ok else
+              "normalize_gravsoft_grid_values takes a boundary with |h| %s %s for a projected coordinate: a grid in degrees that "
+              "reaches 360 is not converted to radians" % (">" if op == "Gt" else ">=", T), cx.where(g.d["span"]))
     cx.count("R-GRAVSOFT-ANGULAR", "thresholds", n)
 
 
